@@ -309,7 +309,11 @@ SpecCore == InitCore /\ [][NextCore]_vars
 SpecRun == Init /\ [][NextRun]_vars
 
 (* =========================== invariants =========================== *)
+\* every stored row is a point that was evaluated (a row the likelihood never saw has no id)
+RowsKnown == /\ \A i \in DOMAIN shell : \A k \in DOMAIN shell[i] : shell[i][k] \in Ids
+             /\ \A k \in DOMAIN tq : tq[k].id \in Ids
 Aligned == /\ Len(shell) = NS /\ Len(slv) = NS /\ Len(sbl) = NS /\ Len(nsamp) = NS /\ Len(lmin) = NS
+           /\ RowsKnown
            /\ \A i \in 1..NS : Len(slv[i]) = Len(shell[i]) /\ Len(sbl[i]) = Len(shell[i])
            /\ explored => Len(nsampExp) = NS /\ Len(endExp) = NS
 \* C01: each stored point is inside its own bound and outside every later one
